@@ -3,6 +3,8 @@ from __future__ import annotations
 import asyncio
 from typing import TYPE_CHECKING, Awaitable, Callable, Iterable
 
+from redis.exceptions import WatchError
+
 from repid.connections.abc import ConsumerT
 from repid.connections.redis.utils import (
     full_message_name_from_short,
@@ -123,6 +125,7 @@ class _RedisConsumer(ConsumerT):
 
     async def __fetch_message_name(
         self,
+        conn: Redis[bytes],
         full_queue_name: str,
         startswith_topics: tuple[str, ...],
         *,
@@ -142,7 +145,7 @@ class _RedisConsumer(ConsumerT):
                 nonlocal names, offset
 
                 # fetch from the normal queue
-                names = await self.conn.lrange(
+                names = await conn.lrange(
                     full_queue_name,
                     offset - self.PREFETCH_AMOUNT,  # range from the end of the queue
                     offset - 1,
@@ -155,7 +158,7 @@ class _RedisConsumer(ConsumerT):
                 nonlocal names, offset
 
                 # fetch from delayed queue
-                names = await self.conn.zrange(  # type: ignore[call-overload]
+                names = await conn.zrange(  # type: ignore[call-overload]
                     full_queue_name,
                     start="-inf",  # minimum score
                     end=unix_time(),  # maximum score
@@ -171,7 +174,7 @@ class _RedisConsumer(ConsumerT):
                 nonlocal names, offset
 
                 # fetch from delayed queue even if it isn't time to do it yet (i.e. forced)
-                names = await self.conn.zrange(
+                names = await conn.zrange(
                     full_queue_name,
                     start=offset,
                     end=offset + self.PREFETCH_AMOUNT - 1,
@@ -209,27 +212,36 @@ class _RedisConsumer(ConsumerT):
         force_delayed: bool = False,
     ) -> str | None:
         new_topics = tuple(x + ":" for x in topics)
-        msg_short_name = await self.__fetch_message_name(
-            full_queue_name,
-            new_topics,
-            delayed=delayed,
-            force_delayed=force_delayed,
-        )
-        if msg_short_name is None:
-            return None
         async with self.conn.pipeline(transaction=True) as pipe:
-            # remove message from the queue
-            if not delayed:
-                pipe.lrem(full_queue_name, -1, msg_short_name)
-            else:
-                pipe.zrem(full_queue_name, msg_short_name)
-            # mark message as processing
-            self.__mark_processing(msg_short_name, full_queue_name, pipe)
-            try:
-                await pipe.execute()
-            except Exception:  # pragma: no cover  # noqa: BLE001
-                return None
-        return msg_short_name
+            while True:
+                # watch the queue: if another consumer takes a message (or the queue is changed in
+                # any other way) after the name was looked up, the transaction below is discarded,
+                # so the same message can't be taken by two consumers
+                await pipe.watch(full_queue_name)
+                msg_short_name = await self.__fetch_message_name(
+                    pipe,
+                    full_queue_name,
+                    new_topics,
+                    delayed=delayed,
+                    force_delayed=force_delayed,
+                )
+                if msg_short_name is None:
+                    return None
+                pipe.multi()
+                # remove message from the queue
+                if not delayed:
+                    pipe.lrem(full_queue_name, -1, msg_short_name)
+                else:
+                    pipe.zrem(full_queue_name, msg_short_name)
+                # mark message as processing
+                self.__mark_processing(msg_short_name, full_queue_name, pipe)
+                try:
+                    await pipe.execute()
+                except WatchError:
+                    continue  # the queue was changed in the meantime, look again
+                except Exception:  # pragma: no cover  # noqa: BLE001
+                    return None
+                return msg_short_name
 
     async def __get_message_normal(
         self,
